@@ -229,6 +229,21 @@ Example C17_algebra_nonvacuous :
   whole_ok [x58; x2d; x41] = true /\ whole_ok [x58; x2d; x42] = true /\ beq (canon [x58; x2d; x41]) (canon [x58; x2d; x42]) = false.
 Proof. vm_compute. repeat split. Qed.
 
+(* absorption: a whole-header set erases the effect of ANY earlier operation that touches only
+   that header - [touches_only cn s] (Proofs/HdrAlgebra.v) is true of reads, refused writes and of
+   every whole/sub-field/cookie write, add and unset whose canonical header name is cn, false of a
+   wildcard unset.  The example: an earlier sub-field set spelled in another case qualifies. *)
+Theorem C17_set_absorbs : forall kd st o n v h, whole_ok n = true ->
+  touches_only (canon n) (classify kd o) = true ->
+  snd (run kd (after kd (after kd st o) (OSet n v)) h) = snd (run kd (after kd st (OSet n v)) h).
+Proof. exact set_absorbs. Qed.
+
+Example C17_set_absorbs_nonvacuous :
+  touches_only (canon [x58; x2d; x41]) (classify KReq (OSet [x78; x2d; x61; x3a; x6b] (VStr [x31]))) = true /\
+  touches_only (canon [x58; x2d; x41]) (classify KResp (OAdd [x78; x2d; x41] (VStr [x31]))) = true /\
+  touches_only (canon [x58; x2d; x41]) (classify KReq (OUnset [x58; x2d; x2a])) = false.
+Proof. vm_compute. repeat split. Qed.
+
 Print Assumptions C17_refine_step.
 Print Assumptions C17_refinement.
 Print Assumptions C17_get_field_refines.
@@ -264,3 +279,4 @@ Print Assumptions C17_set_unset_is_unset.
 Print Assumptions C17_sets_commute.
 Print Assumptions C17_unset_idempotent.
 Print Assumptions C17_unset_set_is_set.
+Print Assumptions C17_set_absorbs.
